@@ -720,9 +720,17 @@ def glue_trio() -> None:
             else:  # pragma: no cover
                 return None
 
-            # Find the system task that matches this call
+            # Find the system task that matches this call. Its context is
+            # the message's context, except while it hosts a reentrant
+            # from_thread.run() call, which temporarily swaps in a copy of
+            # the inner call's context; its coroutine is always the bound
+            # method message.run_system(), though.
             for task in runner.system_nursery.child_tasks:  # pragma: no branch
-                if task.context is message.context:  # pragma: no branch
+                task_frame = getattr(task.coro, "cr_frame", None)
+                if task.context is message.context or (
+                    task_frame is not None
+                    and task_frame.f_locals.get("self") is message
+                ):  # pragma: no branch
                     frame.hide = True
                     return task.coro
 
